@@ -228,6 +228,41 @@ def dwarf_limits(rng, tier):
         out.append(("struct-dwarf-limits-%d" % rep, s))
     return out
 
+def dwarf_expr_loops(rng, tier):
+    """well-formed CFI whose expressions do not terminate (DW_OP_skip / DW_OP_bra branching backwards: onto itself,
+    over other operations, conditionally on a value that is always true) in CFA, frame-pointer and return-address
+    position, and straight-line expressions around the evaluator's bound (999, 1000, 1001 operations and far beyond).
+    The model has no branches: a loop is an operation the evaluator rejects - which is what a bounded evaluator
+    makes of it; an unbounded one never returns (found as S22)."""
+    out = []
+    for rep in range(2 if tier == "quick" else 8):
+        arch = "x86" if rep % 2 == 0 else "a64"
+        R = ARCH_REGS[arch]
+        s = Script(arch, "may" if rep % 4 < 2 else "must")
+        loops = [[("skip", -3)], [("lit", 1), ("bra", -4)], [("breg", R["sp"], 8), ("skip", -3)],
+                 [("breg", R["sp"], 8), ("lit", 1), ("bra", -4)], [("lit", 0), ("lit", 0), ("plus",), ("skip", -4)],
+                 [("lit", 5), ("lit", 3), ("ge",), ("bra", -6)], [("breg", R["fp"], 0), ("pluc", 8), ("skip", -5)]]
+        longs = [[("breg", R["sp"], 16)] + [("pluc", 1)] * n for n in (998, 999, 1000, 1001, 5000)]
+        rows = []
+        for ops in loops + longs:
+            rows.append(dict(cfa=("e", ops), fp=("s",), ra=("o", -8)))
+            rows.append(dict(cfa=("r", R["sp"], 32), fp=("e", ops), ra=("o", -8)))
+            rows.append(dict(cfa=("r", R["sp"], 32), fp=("s",), ra=("e", ops)))
+            rows.append(dict(cfa=("r", R["sp"], 32), fp=("ve", ops), ra=("ve", ops)))
+        fdes = [dict(start=0x1000 + 0x10 * i, len=0x10, rows=[(0, r)]) for i, r in enumerate(rows)]
+        s.module_dwarf("M", 0x100000, 0x100000 + 0x1000 + 0x10 * len(rows) + 0x100, 0x100000, 0, ["hdr", "eh", "debug"][rep % 3], fdes, rng, shuffle=True)
+        s.add("new U"); s.add("add U M"); s.add("newcache C")
+        s.mem("S", [(0x7000 + 8 * i, 0x7000 + 8 * ((i * 7) % 200)) for i in range(256)])
+        for i in range(len(rows)):
+            for mode in ("ip", "ra"):
+                a = 0x101000 + 0x10 * i + (1 if mode == "ra" else 0)
+                sp, fp = rng.choice([(0x7000, 0x7100), (0x7040, 0x7200)])
+                regs = s.regs_x86(a, sp, fp) if arch == "x86" else s.regs_a64(M64, 0x101041, sp, fp)
+                s.add("unwind U C %s %s %s S" % (mode, hx(a), regs),
+                      tag="struct:dwarf-expr-%s:%s:%s" % ("loop" if i < 4 * len(loops) else "long", arch, mode))
+        out.append(("struct-dwarf-expr-loops-%d" % rep, s))
+    return out
+
 def retarget_uinfo(line, funcs, miss, old_rva, new_rva):
     """make function entries that point at unwind info `miss` point at new_rva (both views)"""
     a_part, b_part = line.split(" B ", 1)
@@ -597,7 +632,7 @@ def analysis_stream(rng, tier):
 
 def generate(rng, tier):
     import suites
-    out = structural(rng, tier) + dwarf_base(rng, tier) + dwarf_limits(rng, tier)
+    out = structural(rng, tier) + dwarf_base(rng, tier) + dwarf_limits(rng, tier) + dwarf_expr_loops(rng, tier)
     # valid DWARF worlds including modules without any FDE (model-compared)
     for w in range(4 if tier == "quick" else 40):
         nm, s = suites.dwarf_world(rng, "x86" if w % 2 == 0 else "a64", nmods=3, nf=3, nprobes=30, policy="may" if w % 4 < 2 else "must")
